@@ -132,9 +132,31 @@ def length_mismatch(rng, wj):
                 cands.append((m, "spreading velocity", "spreading velocity list vs ridge coordinates"))
         if f["model"] in ("subducting plate", "fault") and f.get("sections"):
             cands.append((f["sections"][0], "segments", "section with a different number of segments than the feature"))
+        if f["model"] == "subducting plate":
+            segs_ = f.get("segments", []) + [sg for sc in f.get("sections", []) for sg in sc["segments"]]
+            lists_ = ([] if all("temperature models" in sg for sg in segs_) else [f.get("temperature models", [])]) + [sg.get("temperature models", []) for sg in segs_]
+            for ms_ in lists_:
+                for m in ms_:
+                    if m.get("model") == "mass conserving" and m.get("ridge coordinates"):
+                        cands.append((m, "subducting velocity table", "subducting velocity table that does not have the shape of the ridge coordinates"))
     if not cands:
         return None
     c, k, what = rng.choice(cands)
+    if k == "subducting velocity table":
+        ridges = c["ridge coordinates"]
+        v0 = c.get("subducting velocity", 0.05)
+        v0 = v0 if isinstance(v0, (int, float)) else 0.05
+        shape = rng.choice(["one row short", "one row long", "row missing", "row too many"])
+        if shape == "one row short" and len(ridges[0]) > 2:
+            rows = [[v0] * (len(ridges[0]) - 1)] + [[v0] * len(r) for r in ridges[1:]]
+        elif shape == "row missing" and len(ridges) > 1:
+            rows = [[v0] * len(r) for r in ridges[:-1]]
+        elif shape == "row too many":
+            rows = [[v0] * len(r) for r in ridges] + [[v0, v0]]
+        else:
+            rows = [[v0] * (len(ridges[0]) + 1)] + [[v0] * len(r) for r in ridges[1:]]
+        c["subducting velocity"] = rows
+        return what + " (%s: rows of %s for ridges of %s)" % (shape, [len(r) for r in rows], [len(r) for r in ridges]), w
     v = c[k]
     if rng.random() < 0.5 and len(v) > 1:
         c[k] = v[:-1]
@@ -205,6 +227,15 @@ def signatures(wj):
             else:
                 raise NotExtractable("spreading velocity")
             sigs.append("SigSpreading ([%s], %s)" % ("; ".join(_nat(len(r)) for r in ridges), _nat(nv)))
+            if name == "mass conserving":
+                sb = m.get("subducting velocity")
+                if sb is None or isinstance(sb, (int, float)):
+                    rows = [1]
+                elif isinstance(sb, list) and sb and all(isinstance(r, list) for r in sb):
+                    rows = [len(r) for r in sb]
+                else:
+                    raise NotExtractable("subducting velocity")
+                sigs.append("SigSubducting ([%s], [%s])" % ("; ".join(_nat(len(r)) for r in ridges), "; ".join(_nat(k) for k in rows)))
 
     kinds = ("temperature models", "composition models", "grains models", "velocity models")
     for f in wj.get("features", []):
